@@ -59,10 +59,15 @@ def run(ctx):
         out["part"], out["sink"] = extra["part"], extra["sink"]
         out["unit_d"], out["unit_l"], out["unit_t"], out["boxlen"] = out["unit_d"], out["unit_l"], out["unit_t"], out["boxlen"]
         tmpl = templates(r, out)
+        by = dict((n, (n, q)) for n, q in tmpl)
+        # histories that have carried state between calls before (CPU pre-selection, level cap, cpu_list, selections): always run
+        must = [[by[a], by[b]] for a, b in (("box", "no_mesh"), ("positional_box", "grouplist_part"), ("box", "only_sink"),
+                                             ("level_cap", "grouplist_part"), ("level_cap", "full"), ("cpu_list", "full"),
+                                             ("cpu_list", "no_mesh"), ("value_pred", "no_part"), ("mesh_vars", "full"), ("box", "full"))]
         if ctx.tier == "quick":
-            hists = [[a, b] for a in r.sample(tmpl, 6) for b in r.sample(tmpl, 4)]
+            hists = must + [[a, b] for a in r.sample(tmpl, 5) for b in r.sample(tmpl, 3)]
         else:
-            hists = [[a, b] for a in tmpl for b in tmpl] + [[r.choice(tmpl) for _ in range(r.choice([3, 4]))] for _ in range(40)]
+            hists = must + [[a, b] for a in tmpl for b in tmpl] + [[r.choice(tmpl) for _ in range(r.choice([3, 4]))] for _ in range(40)]
         with loadrun.Written(out) as w:
             fresh_cache = {}
 
